@@ -73,11 +73,17 @@ def gen_block(rng, n, allow_branch=True):
         out.append(("csrr", rng.choice(WORK), rv0ref.MNGR2PROC))
     elif r < 0.84:
       out.append(("csrw", rv0ref.PROC2MNGR, rng.choice(WORK + [0])))
-    elif r < 0.88:
+    elif r < 0.90:
       # accelerator registers 0x7E0 .. 0x7FF (the null accelerator keeps ONE value behind all of them): write one, read another
       xa = lambda: 0x7E0 + rng.choice([0, 31, 31, 1, 30, rng.randrange(32)])
       out.append(("csrw", xa(), rng.choice(WORK)))
-      if rng.random() < 0.7: out.append(gen_alu(rng))
+      mid = rng.random()
+      if mid < 0.35: out.append(gen_alu(rng))
+      elif mid < 0.8:
+        # a manager write DIRECTLY in front of the accelerator read: with a busy sink the write blocks in W while the accelerator's
+        # response arrives, so the response has to wait in the processor's response queue
+        if mid < 0.5: out.append(("csrw", rv0ref.PROC2MNGR, rng.choice(WORK)))
+        out.append(("csrw", rv0ref.PROC2MNGR, rng.choice(WORK)))
       out.append(("csrr", rng.choice(WORK), xa()))
     elif allow_branch:
       k = rng.randrange(1, 5)
